@@ -155,7 +155,7 @@ Proof.
     apply wp_bind.
     pose proof (wp_tick_second b c0 s HH) as W.
     assert (W' : wp (for_each (map fst (nodes s)) tick_peer) (fun c s' => c = Next /\ time_post b c0 s 1 s') s).
-    { intros r Hr. apply (W r). unfold bind. apply in_flat_map.
+    { intros r Hr. apply (W r). rewrite bind_flat. apply in_flat_map.
       exists (Ret (map fst (nodes s)) s). split; [|exact Hr].
       pose proof (g_lk _ _ (H_G _ _ _ HH)) as U. unfold peers. rewrite with_r_unlocked by exact U.
       unfold bind, pure, peers_pure, modify, ret. cbn. left. f_equal. destruct s; cbn in *. now subst. }
